@@ -124,6 +124,11 @@ def cases(tier, seed):
     for n in (1, 300, 2294, 4600):
         for pat in ("ff", "00", "ramp7", "dir", "m00.p0"):
             yield {"k": "write", "files": [fspec("ML", n, pat=pat)], "fill": "default"}
+    # text content under every line-end convention, for every kind of file (stored bytes are data, never translated)
+    for kind in KINDS:
+        for pat in ("dos", "unix", "mac", "mixeol"):
+            for n in (2, 31, 300, 2400):
+                yield {"k": "write", "files": [fspec(kind, n, "TEXT", "TXT", pat=pat)], "fill": "default"}
     for nm in NAMES:
         for ex in EXTS:
             yield {"k": "write", "files": [fspec("ML", 20, nm, ex)], "fill": "default"}
